@@ -1,4 +1,5 @@
 import InfluxQL.Gen.SitesAst
+import InfluxQL.Gen.RewriteSwitch
 import InfluxQL.Model.GroupBy
 import InfluxQL.Lemmas.OpsChecked
 import InfluxQL.Lemmas.RewriteChecked
@@ -266,6 +267,57 @@ theorem gen_codec_sites :
 theorem gen_unmodelled_functions :
     ((sitesAst.filter (fun s => !modelledFunctions.contains s.1)).map (·.1)).eraseDups = [] := by
   decide
+
+/-- The type switch of `Rewrite` as transcribed in `Model/RewriteChecked.lean`: per case clause the
+type and the statements of its body, with the definition that models it. Cases that are *not* here
+(`Sources`, `*Measurement`, every statement type but `*SelectStatement`, `SortFields`, `*Target`, …)
+are the catch-all rows of `rewriteChecked` / `rewriteStatement` / `rewriteExpr`. -/
+def reviewedRewriteSwitch : List (List String × List String) := [
+  (["*Query"], ["n.Statements = Rewrite(r, n.Statements).(Statements)"]),  -- rewriteChecked (.query …)
+  (["Statements"], ["for i, s := range n { n[i] = Rewrite(r, s).(Statement) }"]),  -- rewriteStatements
+  (["*SelectStatement"], ["n.Fields = Rewrite(r, n.Fields).(Fields)",  -- rewriteSelect
+    "n.Dimensions = Rewrite(r, n.Dimensions).(Dimensions)",
+    "n.Sources = Rewrite(r, n.Sources).(Sources)",
+    "if cond := Rewrite(r, n.Condition); cond != nil { n.Condition = cond.(Expr) } else { n.Condition = nil }"]),  -- rewriteCondition
+  (["*SubQuery"], ["n.Statement = Rewrite(r, n.Statement).(*SelectStatement)"]),  -- rewriteChecked (.source (.subquery …))
+  (["Fields"], ["for i, f := range n { n[i] = Rewrite(r, f).(*Field) }"]),  -- rewriteFields
+  (["*Field"], ["n.Expr = Rewrite(r, n.Expr).(Expr)"]),  -- rewriteField
+  (["Dimensions"], ["for i, d := range n { n[i] = Rewrite(r, d).(*Dimension) }"]),  -- rewriteDimensions
+  (["*Dimension"], ["n.Expr = Rewrite(r, n.Expr).(Expr)"]),  -- rewriteDimension
+  (["*BinaryExpr"], ["n.LHS = Rewrite(r, n.LHS).(Expr)", "n.RHS = Rewrite(r, n.RHS).(Expr)"]),  -- rewriteExpr (.binary …)
+  (["*ParenExpr"], ["n.Expr = Rewrite(r, n.Expr).(Expr)"]),  -- rewriteExpr (.paren …)
+  (["*Call"], ["for i, expr := range n.Args { n.Args[i] = Rewrite(r, expr).(Expr) }"])  -- rewriteExpr (.call …), rewriteArgs
+]
+
+/-- The type switch of `Rewrite` in /repo (regenerated: case types and the statements of each case,
+comments dropped) is the one the model transcribes, and around it there is only the final call of the
+rewriter. A new case, a changed assertion, a moved or removed nil guard breaks this obligation. -/
+theorem gen_rewrite_switch :
+    Gen.rewriteSwitch = reviewedRewriteSwitch ∧
+    Gen.rewriteRest = ["switch n := node.(type) { … }", "return r.Rewrite(node)"] :=
+  ⟨rfl, rfl⟩
+
+/-- The bodies of the codec functions as transcribed in `Model/SourcesCodecChecked.lean`. -/
+def reviewedCodecBodies : List (String × List String) := [
+  ("Sources.MarshalBinary", ["var pb internal.Measurements",
+    "pb.Items = make([]*internal.Measurement, len(a))",
+    "for i, source := range a { pb.Items[i] = encodeMeasurement(source.(*Measurement)) }",  -- marshalItems, marshalOne
+    "return proto.Marshal(&pb)"]),
+  ("Sources.UnmarshalBinary", ["var pb internal.Measurements",
+    "if err := proto.Unmarshal(buf, &pb); err != nil { return err }",
+    "*a = make(Sources, len(pb.GetItems()))",
+    "for i := range pb.GetItems() { mm, err := decodeMeasurement(pb.GetItems()[i]) if err != nil { return err } (*a)[i] = mm }",  -- unmarshalItems, unmarshalOne
+    "return nil"]),
+  ("encodeMeasurement", ["pb := &internal.Measurement{ Database: proto.String(mm.Database), RetentionPolicy: proto.String(mm.RetentionPolicy), Name: proto.String(mm.Name), IsTarget: proto.Bool(mm.IsTarget), }",
+    "if mm.Regex != nil { pb.Regex = proto.String(mm.Regex.Val.String()) }",
+    "return pb"]),
+  ("decodeMeasurement", ["mm := &Measurement{ Database: pb.GetDatabase(), RetentionPolicy: pb.GetRetentionPolicy(), Name: pb.GetName(), IsTarget: pb.GetIsTarget(), }",
+    "if pb.Regex != nil { regex, err := regexp.Compile(pb.GetRegex()) if err != nil { return nil, fmt.Errorf(\"invalid binary measurement regex: value=%q, err=%s\", pb.GetRegex(), err) } mm.Regex = &RegexLiteral{Val: regex} }",
+    "return mm, nil"])
+]
+
+/-- The codec functions in /repo are the ones the model transcribes. -/
+theorem gen_codec_bodies : Gen.codecBodies = reviewedCodecBodies := by rfl
 
 /-! ## `ColumnNames`, `FieldExprByName`, `TimeAscending`, `ExprsToConjunction`, `RewriteTimeFields` -/
 
